@@ -47,6 +47,12 @@ def cells(tier):
         out.append(cell(f"s{size} G=A3 H=A2 cgroup(msg) cancelH0(msg)", sc, MON))
         sc = scen(pool(size), [G["M3/1"], H["A2"], [["cancel_all", {"msg": "all"}]]], outcomes=["ret"])
         out.append(cell(f"s{size} G=M3/1 H=A2 call(msg)", sc, MON))
+    for size in [1, 2]:
+        # a worker that absorbed an individual cancellation earlier is still reached by the group cancellation
+        sc = scen(pool(size), [[A("G", 2, name="gname", worker="absorb")], H["A2"], [cancel(rid("G", 0))], [cgroup("G")]], outcomes=["ret"], ecb="plain", ccb="plain")
+        out.append(cell(f"s{size} G=A2 absorb H=A2 cancelG0 cgroup", sc, MON))
+    sc = scen(pool(2, "SimpleTaskPool", worker="absorb", ecb="plain", ccb="plain"), [[S("G", 2)], [["stop", 1]], [CALL]], outcomes=["ret"])
+    out.append(cell("simple s2 G=S2 absorb stop1 call", sc, MON))
     sc = scen(pool(2, "SimpleTaskPool", ecb="plain", ccb="plain"), [[S("G", 3)], [S("H", 2)], [cgroup("G")]], outcomes=["ret"])
     out.append(cell("simple s2 G=S3 H=S2 cgroup", sc, MON))
     if not q:
